@@ -880,7 +880,7 @@ Section Gen.
     | imps =>
       let lines := map (fun imp =>
                           let parts := split_ch dot imp in
-                          let from_ := escape (conv (join DOT (removelast parts))) in
+                          let from_ := escape_path (conv (join DOT (removelast parts))) in
                           let name := escape (conv (last parts [])) in
                           K"from " ++ from_ ++ K" import " ++ name) imps in
       NL ++ join NL (sort_str lines) ++ NL
@@ -889,7 +889,7 @@ Section Gen.
   Definition module_header (package_info : str) : str :=
     let cc := conv package_info in
     (if str_eqb package_info cc then [] else K"@PythonModule(""" ++ package_info ++ K""")" ++ NL) ++
-    K"package " ++ cc ++ NL.
+    K"package " ++ escape_path cc ++ NL.
 
   Definition class_fuel : nat := S (S (List.length classes)) * 4.
 
